@@ -55,7 +55,8 @@ impl Prop for C18 {
             let dk = *rng.pick(&[1usize, 2, 16, 31, 32, 33, 63, 64, 65, 100, 127, 199, 200]);
             let dk = if rng.chance(1, 3) { rng.range(1, 200) } else { dk };
             v.push(case(&[("k", k.to_string()), ("r", r.to_string()), ("p", p.to_string()), ("dk", dk.to_string()),
-                ("pwlen", (*rng.pick(&[0usize, 1, 5, 63, 64, 65, 100])).to_string()), ("saltlen", rng.range(0, 100).to_string()), ("seed", rng.next().to_string())]));
+                ("pwlen", (*rng.pick(&[0usize, 1, 5, 63, 64, 65, 66, 100, 129])).to_string()), ("saltlen", rng.range(0, 100).to_string()),
+                ("pwtail", (*rng.pick(&["", "", "nul", "nul-both"])).into()), ("seed", rng.next().to_string())]));
         }
         // the production parameters and the RFC 7914 vectors' shapes
         v.push(case(&[("k", "15".into()), ("r", "8".into()), ("p", "1".into()), ("dk", "32".into()), ("pwlen", "6".into()), ("saltlen", "16".into()), ("seed", "1".into())]));
@@ -67,7 +68,9 @@ impl Prop for C18 {
         let (k, r, p, dk) = (getn(c, "k"), getn(c, "r"), getn(c, "p"), getn(c, "dk"));
         let n: u32 = 1 << k;
         let mut rng = Rng::new(get(c, "seed").parse().unwrap_or(0));
-        let pw = rng.bytes(getn(c, "pwlen")); let salt = rng.bytes(getn(c, "saltlen"));
+        let mut pw = rng.bytes(getn(c, "pwlen")); let salt = rng.bytes(getn(c, "saltlen"));
+        // C callers hand over NUL-terminated buffers: the terminator is part of the password when the length says so
+        if !pw.is_empty() && get(c, "pwtail").starts_with("nul") { let l = pw.len(); pw[l - 1] = 0; if get(c, "pwtail") == "nul-both" { pw[0] = 0; } }
         o.nontrivial = Some(format!("{}/{}/{}/{}/{}/{}", n, r, p, dk, pw.len(), salt.len()));
         o.tags.push(format!("N=2^{}", k)); o.tags.push(format!("r={}", r.min(9))); o.tags.push(format!("dk{}", if dk < 32 { "<32" } else if dk == 32 { "=32" } else { ">32" }));
         let lib = catch_unwind(AssertUnwindSafe(|| kestrel_crypto::scrypt(&pw, &salt, n, r as u32, p as u32, dk)));
@@ -84,6 +87,12 @@ impl Prop for C18 {
             let imp = m.ask(&format!("scrypt_impl {} {} {} {} {} {}", hexd(&pw), hexd(&salt), n, r, p, dk));
             if imp != spec { o.disagreement = Some(format!("scrypt.rs-shaped model differs from the RFC model: {} vs {}", imp, spec)); }
             o.validated += 1;
+        }
+        if k <= 6 && r <= 4 {
+            // the definitions generated from scrypt.rs by tools/rs2lean_scrypt.py, run on the same input: this is what ties the TRANSLATOR to the code
+            let src = m.ask(&format!("scrypt_src {} {} {} {} {} {}", hexd(&pw), hexd(&salt), n, r, p, dk));
+            if src != format!("ok {}", hex(&lib)) && o.disagreement.is_none() { o.disagreement = Some(format!("the Lean definitions translated from scrypt.rs give {} but the library gives {} (N={}, r={}, p={}, dkLen={})", src, hex(&lib), n, r, p, dk)); }
+            o.validated += 1; o.tags.push("translated scrypt.rs run".into());
         }
         let f = catch_unwind(AssertUnwindSafe(|| call_ffi(&pw, &salt, n, r as u32, p as u32, dk)));
         match f {
